@@ -134,7 +134,10 @@ WellFormedCfg(c) ==
   /\ c.other \subseteq 1..c.nt /\ c.other \cap c.backed = {}
   /\ c.par \in BOOLEAN /\ c.shard \in BOOLEAN
   /\ c.sh = ShardAssign(c.nt, c.nc, ExtC(c), c.shard, c.lim)
-  /\ (c.shard => /\ c.dest \in {"absent", "file"} /\ ~c.par /\ c.lim >= 1
+  \* (a sharded save with concurrent shard drivers, c.shard /\ c.par, is a legal configuration whose interleavings
+  \*  this action system does not model: runs of it are judged on the observed end state only - the P_ formulas -
+  \*  and are not asked to be behaviours of this specification)
+  /\ (c.shard => /\ c.dest \in {"absent", "file"} /\ c.lim >= 1
                   /\ c.pre \subseteq (IF Numbered(c) THEN 1..NShardsC(c) ELSE {}))
   /\ (~c.shard => c.pre = {} /\ c.lim = 0)
 
